@@ -169,6 +169,44 @@ CHECKS = {
             'Trusted: device model; register file static between single and bulk read.  Sensors without a single-read '
             'path (Calculated, EnumCalculated, EnumBitmap22) are recorded as known findings.',
             'DESIGN.md section 3, C16'),
+    'C17': ('model_checking',
+            'exhaustive enumeration of setting values against a register-file device model with write-log / register diff',
+            'Every setting of ET (eco v1 / v2 / 745), DT (single / three phase) and the register-addressed ES settings is '
+            'written and read back through the real API on UDP-RTU, Modbus/TCP and AA55 for every value of its encodable '
+            'domain (full domain for one setting per type in the thorough tier, boundary values for all); the device '
+            'model\'s write log and register-file diff must show exactly one write of the right function to exactly the '
+            'setting\'s registers carrying the reference encoding, every other register (including the other half of a '
+            'shared register) unchanged, and the read-back must equal the value.',
+            'Trusted: device model, reference encoders of mc/refdec.py.  Sentinel encodings (0xFFFF..) are outside the domain.',
+            'DESIGN.md section 3, C17'),
+    'C18': ('model_checking',
+            'BFS over read-only call sequences + exhaustive integer windows round every setter guard, device-side request log',
+            'Breadth-first search over sequences of the monitoring API (15 calls, depth 2 quick / 3 thorough, state '
+            'de-duplication) for ET/DT/ES configurations covering capability fallbacks, eco-mode register contents and '
+            'work modes, plus connect()/discover(): the device model must see only read functions.  Every integer '
+            'argument in wide windows round each setter guard and near-miss setting ids must transmit no write (and '
+            'raise ValueError where documented); in-range arguments are checked to produce writes (vacuity guard).',
+            'Trusted: device model request log (strict parser).',
+            'DESIGN.md section 3, C18'),
+    'C19': ('model_checking',
+            'exhaustive encoder enumeration + BFS over mode-change sequences against the device model',
+            'Encoder level: power 1..100 x SoC 0..100 x every schedule type x 745 flag for charge/discharge, decoded by '
+            'the reference decoder.  End to end: every mode of get_operation_modes(True) x (power, SoC) boundary grid x '
+            'every prior content of eco group 1 (all schedule types, undecodable) x ET {v1, v2, no peak shaving, 745} and '
+            'ES {arm 6, arm 14, v2}, plus every ordered pair of modes; getter must return the mode set, group 1 must '
+            'decode to the request and groups 2-4 be off; export limit and DoD round trips.',
+            'Trusted: device model links listed in the evidence; interpretation (i)-(iv) of DESIGN.md C19.',
+            'DESIGN.md section 3, C19'),
+    'C20': ('model_checking',
+            'exhaustive request-level interleaving exploration of two inverter objects with a solo-vs-interleaved differential oracle',
+            'Two inverter objects (same and different families/platforms) talk to two device models with different '
+            'register contents on one real event loop; whenever both wait for an answer the explorer chooses whose answer '
+            'is delivered first (deviation-bounded from FIFO).  Each object must send the same requests and return the same '
+            'results as when its calls run alone, and every value handed to the caller is re-snapshotted at the end and '
+            'must be unchanged.',
+            'Trusted: device models, gate in mc/checks/c20.py (answers are released only when every task is blocked). '
+            'Shared stateful schedule sensors are recorded as known findings.',
+            'DESIGN.md section 3, C20'),
 }
 
 NOT_BUILT = 'check not built yet (planned, see DESIGN.md section 3)'
